@@ -196,6 +196,33 @@ class EnumSource(SymSource):
         return self.inner.fresh_exception(it)
 
 
+class CompSource(SymSource):
+    """iteration over the result of a symbolic comprehension [elem(x) for x in src if cond(x)]:
+    an arbitrary element is elem(x) for an arbitrary x of src with cond(x)"""
+
+    def __init__(self, comp):
+        super().__init__('comp(%s)' % comp.src.name)
+        self.comp = comp
+        self.may_raise = getattr(comp.src, 'may_raise', False)
+
+    def fresh_elem(self, it):
+        c = self.comp
+        e = c.src.fresh_elem(it)
+        new_vars = list(getattr(c.src, 'last_vars', []))
+        self.last_vars = new_vars
+        if c.identity:
+            # [x for x in src if cond(x)]: the element object itself
+            sub = list(zip(c.vars, new_vars))
+            for cd in c.conds:
+                it.assume(z3.substitute(cd, *sub) if sub else cd)
+            return e
+        raise Unsupported('iteration over a mapped symbolic comprehension')
+
+    def bases(self):
+        return self.comp.src.bases() + [DEFS.sym('FILTERID', self.comp.src.bases(), self.comp.vars,
+                                                 list(self.comp.conds) or [z3.BoolVal(True)], IntS)]
+
+
 class GenExp:
     """unevaluated generator expression / comprehension"""
 
@@ -208,10 +235,11 @@ class CompSeq:
     """symbolic sequence produced by a comprehension over one opaque source:
        [elem(x) for x in src if cond(x)]"""
 
-    def __init__(self, src, vars, elem, conds, it):
+    def __init__(self, src, vars, elem, conds, it, identity=False):
         self.src, self.vars, self.elem, self.conds = src, vars, elem, conds
         self.oid = new_oid()
         self._term = None
+        self.identity = identity   # elem is the source element itself (filter only)
 
     def term(self, it):
         if self._term is None:
@@ -249,7 +277,9 @@ def iterate(it, v):
         r = consume_comp(it, v, 'list')
         return iterate(it, r)
     if isinstance(v, CompSeq):
-        raise Unsupported('re-iteration of a symbolic comprehension result')
+        if not v.vars and not v.identity:
+            raise Unsupported('iteration over a comprehension of opaque objects')
+        return 'symbolic', CompSource(v)
     if isinstance(v, Opaque):
         s = it.lib.opaque_iter(it, v)
         return iterate(it, s)
@@ -336,6 +366,7 @@ def consume_comp(it, ge, kind):
     g = gens[0]
     e2 = Env(env)
     elem = src.fresh_elem(it)
+    src.last_elem = elem
     vars = list(getattr(src, 'last_vars', []))
     if isinstance(src, StreamSource):
         raise Unsupported('comprehension over a row stream (buffering)')
@@ -395,7 +426,7 @@ def build_comp(it, src, vars, ev, conds, kind):
         val = DEFS.sym('DICT_VAL', src.bases(), vars, [kt, vt, cond], ValS)
         return Row(dom, val, name='compdict')
     if kind in ('list', 'gen', 'tuple'):
-        return CompSeq(src, vars, ev, conds, it)
+        return CompSeq(src, vars, ev, conds, it, identity=getattr(src, 'last_elem', None) is ev)
     if kind == 'set':
         et = term(ev) if not isinstance(ev, tuple) else None
         if et is None:
@@ -641,7 +672,12 @@ def contains(it, container, x):
     if isinstance(container, Tree):
         return tree_has(it, container, x)
     if isinstance(container, CompSeq):
-        raise Unsupported('membership in comprehension result')
+        if isinstance(container.elem, tuple):
+            raise Unsupported('membership in comprehension of tuples')
+        et = term(container.elem)
+        xt = term(x, et.sort())
+        cond = z3.And(*container.conds) if container.conds else z3.BoolVal(True)
+        return DEFS.sym('ANY', container.src.bases(), container.vars, [z3.And(cond, et == xt)], BoolS)
     if isinstance(container, Opaque) and '__contains__' in container.attrs:
         return container.attrs['__contains__'](it, x)
     raise Unsupported('in on %r' % (container,))
